@@ -11,7 +11,7 @@ VARIABLES l
 tvars == <<vars, l>>
 Line == Trace[l]
 ToSet(s) == { s[i] : i \in DOMAIN s }
-Seen(o) == [rep |-> o.rep, recs |-> o.recs, logs |-> ToSet(o.logs), closed |-> o.closed]
+Seen(o) == [rep |-> o.rep, recs |-> o.recs, logs |-> ToSet(o.logs), closed |-> o.closed, garbled |-> o.garbled]
 Strip(a) == [x \in DOMAIN a \ {"w", "reg"} |-> a[x]]
 
 RECURSIVE IsSubSeq(_, _)
@@ -19,7 +19,7 @@ IsSubSeq(x, y) == IF x = <<>> THEN TRUE ELSE IF y = <<>> THEN FALSE
                   ELSE IF Head(x) = Head(y) THEN IsSubSeq(Tail(x), Tail(y)) ELSE IsSubSeq(x, Tail(y))
 
 Conforms(a, pred, o) ==
-  /\ pred.rep = o.rep
+  /\ pred.rep = o.rep /\ o.garbled = 0
   /\ \A s \in SeqIds :
        IF a.a = "burst" THEN /\ IsSubSeq(Proj(o.recs, s), Proj(pred.recs, s))
                              /\ (Len(Proj(pred.recs, s)) <= BufSize => Proj(o.recs, s) = Proj(pred.recs, s))
@@ -37,9 +37,9 @@ Step ==
           C' = NewC /\ M' = NewM /\ obs' = NoObs /\ last' = [a |-> "init"] /\ steps' = 0
      ELSE LET a == Strip(Line.act)
               o == Seen(Line.obs)
-              r == IF a.a = "close" THEN R(NewC, <<>>, <<>>) ELSE React(C, a)
+              r == IF a.a = "close" THEN R(NewC, <<>>, <<>>) ELSE ReactA(C, a)
           IN  /\ C' = r.C /\ obs' = o /\ last' = Line.act /\ steps' = steps + 1
-              /\ M' = MonStep(M, a, o)
+              /\ M' = MonAct(M, a, o)
               /\ ~Conforms(a, r, o) => PrintT(<<"DIVERGE", l>>)
   /\ \A c \in M'.bad \ M.bad : PrintT(<<"MONITOR", l, {c}, IF c = "C25_q_bogus_record" THEN M'.tags ELSE {}>>)
 TraceNext == Step
